@@ -65,7 +65,7 @@ def step (fx : Fixes) (op : Op) (args : List Val) : Out :=
       fun v => .ok (vecVal v)
   | .cmdTargets, [a] =>
     match cmdTargets a with
-    | none => .err .nilListenerCommand a
+    | none => .err .nilListenerCommand (match a with | .ptr => .nil | a => a)   -- `arraysize()` of a pointer clears it
     | some r => ofR r a fun l => .carr (l.map .obj)
   | _, _ => .badop
 
